@@ -4,6 +4,7 @@ import os
 
 from hypothesis import strategies as st
 
+from .. import shrink
 from .. import worker as W
 from ..build import repo_path
 from ..lang import gen, printer
@@ -57,7 +58,48 @@ def strategy(hazards):
     ]
     if hasattr(gen, "fiber_program"):
         strategies.append(gen.fiber_program(cfg3).map(lambda p: ("fiber", p)))
-    return st.one_of(*strategies)
+    return st.tuples(st.one_of(*strategies), st.integers(0, 1 << 20)).map(lambda t: (t[0][0], t[0][1], t[1]))
+
+
+STMT_TAGS = {"expr", "print", "let", "fn", "class", "if", "while", "for", "break", "continue", "return", "implicit",
+             "try", "raise", "launch", "export", "import"}
+TERMINATORS = {"break", "continue", "return", "raise", "implicit"}
+PROBE = ("expr", ("list", [("num", float(i)) for i in range(14)]))
+
+
+def _stmt_lists(node, path, out):
+    if isinstance(node, list):
+        if node and all(isinstance(x, tuple) and x and isinstance(x[0], str) and x[0] in STMT_TAGS for x in node):
+            out.append(path)
+        for i, c in enumerate(node):
+            _stmt_lists(c, path + (i,), out)
+    elif isinstance(node, tuple):
+        for i, c in enumerate(node):
+            if isinstance(c, (list, tuple)):
+                _stmt_lists(c, path + (i,), out)
+
+
+def insert_probe(prog, sel):
+    """One statement that needs 14 operand slots, placed at a drawn point of a drawn block: the function's deepest
+    point then lies wherever the draw put it (after a break in an else arm, inside a catch, after a loop ...), so an
+    under-counted depth at that point shows as max depth > reserved instead of hiding below the maximum reached
+    elsewhere."""
+    lists = []
+    _stmt_lists(prog, (), lists)
+    if not lists:
+        return prog
+    path = lists[sel % len(lists)]
+    node = prog
+    for i in path:
+        node = node[i]
+    limit = len(node)
+    for i, s_ in enumerate(node):
+        if s_[0] in TERMINATORS:
+            limit = i
+            break
+    pos = (sel // len(lists)) % (limit + 1)
+    new = node[:pos] + [PROBE] + node[pos:]
+    return shrink._replace(prog, path, new)
 
 
 def judge(r, src, what):
@@ -87,6 +129,9 @@ def judge(r, src, what):
 
 
 def run_case(case, ctx):
+    if case and case[0] == "long":
+        _ok, fail = long_probe(ctx, case[1], case[2], True)
+        return Outcome(key="long:%s:%d" % (case[1], case[2]), nontrivial=True, labels=["jump-boundary"], failure=fail, runs=1)
     if case and case[0] == "file":
         path = case[1]
         try:
@@ -96,13 +141,20 @@ def run_case(case, ctx):
         what = path
         profile = "fixture"
     else:
-        profile, prog = case
+        profile, prog = case[0], case[1]
+        sel = case[2] if len(case) > 2 else 0
+        if sel % 4 != 0:
+            prog = insert_probe(prog, sel // 4)
         try:
             src, _ = printer.to_source(prog)
         except ValueError:
             return Outcome(discarded="unprintable")
         what = profile + " program"
-    r = ctx.worker("dbg").run(src, mode=W.MODE_DUMP)
+    # the limit fixtures (65536 module symbols ...) take ~25 s to reject in the debug worker: a long watchdog, and a
+    # wall clock expiry is inconclusive for this property, never a violation
+    r = ctx.worker("dbg").run(src, mode=W.MODE_DUMP, watchdog_s=300 if profile == "fixture" else 60)
+    if r.get("outcome") == "timeout":
+        return Outcome(discarded="watchdog")
     fail, nontrivial, key, labels = judge(r, src, what)
     if fail is not None and profile == "fixture":
         fail.info["case"] = enc(case)
@@ -110,8 +162,99 @@ def run_case(case, ctx):
                    sample=short(src, 500), runs=1)
 
 
-def extra(tier, ctx):
+# ------------------------------------------------------------------------------------------- jump range boundary
+def long_texts(n):
+    """Programs whose one long block makes a particular jump / handler offset grow with n.
+    -> [(name, text, stdout expected if the text is accepted)]"""
+    body = "x = x + 1; " * n  # one line: the line table has its own 16 bit limit (C15 covers that one)
+    items = ", ".join(["1"] * n)
+    return [
+        ("if-skip-then", "let x = 0;\nif x == 1 {\n%s}\nprint(x);" % body, "0\n"),
+        ("if-run-then", "let x = 0;\nif x == 0 {\n%s}\nprint(x);" % body, "%d\n" % n),
+        ("else-skip", "let x = 0;\nif x == 0 { x = 5; } else {\n%s}\nprint(x);" % body, "5\n"),
+        ("while", "let x = 0;\nlet go = true;\nwhile go {\n%sgo = false;\n}\nprint(x);" % body, "%d\n" % n),
+        ("for", "let x = 0;\nfor i in [1, 2] {\n%s}\nprint(x);" % body, "%d\n" % (2 * n)),
+        ("break-over-body", "let x = 0;\nwhile true {\nif x > 0 { break; }\n%s}\nprint(x);" % body, "%d\n" % n),
+        ("try-handler", "let x = 0;\ntry {\n%sraise Error('boom');\n} catch e { print('caught ' + e.message); }\nprint(x);" % body,
+         "caught boom\n%d\n" % n),
+        ("try-skip-catch", "let x = 0;\ntry { x = 1; } catch e {\n%s}\nprint(x);" % body, "1\n"),
+        ("catch-chain", "let x = 0;\ntry { raise Error('b'); } catch e: TypeError {\n%s} catch e { print('second'); }\nprint(x);" % body,
+         "second\n0\n"),
+        ("fn-try-handler", "fn f() {\nlet x = 0;\ntry {\n%sraise Error('boom');\n} catch e { print('caught'); }\nreturn x;\n}\nprint(f());" % body,
+         "caught\n%d\n" % n),
+        ("fn-while", "fn f() {\nlet x = 0;\nlet go = true;\nwhile go {\n%sgo = false;\n}\nreturn x;\n}\nprint(f());" % body, "%d\n" % n),
+        ("ternary-list", "let x = 0;\nlet y = x == 0 ? [%s].len() : 0;\nprint(y);" % items, "%d\n" % n),
+        ("and-list", "let x = 0;\nlet y = x == 0 && [%s].len();\nprint(y);" % items, "%d\n" % n),
+        ("or-list", "let x = nil;\nlet y = x || [%s].len();\nprint(y);" % items, "%d\n" % n),
+    ]
+
+
+def long_probe(ctx, name, n, verify):
+    """-> (accepted?, Failure or None)"""
+    text, expect = next((t, e) for (nm, t, e) in long_texts(n) if nm == name)
+    what = "jump boundary %s with n=%d" % (name, n)
+    shown = "(%s; the long block is n repetitions)" % name
+    r = ctx.worker("dbg").run(text, budget=40 * n + 100000, watchdog_s=120)
+    f = crash_failure(PROPERTY, r, shown, what)
+    if f is not None:
+        f.sig = "%s/jump-range/%s" % (PROPERTY, f.sig.split("/", 1)[1])
+        f.info["case"] = enc(("long", name, n))
+        return False, f
+    info = {"case": enc(("long", name, n))}
+    if r.get("outcome") == "compile_error":
+        if not (r.get("stderr") or "").strip() or r.get("stdout"):
+            return False, Failure("%s/jump-range/rejected-without-diagnostic" % PROPERTY, "%s: rejected but stderr %r stdout %r" %
+                                  (what, (r.get("stderr") or "")[:200], (r.get("stdout") or "")[:100]), info)
+        return False, None
+    if r.get("outcome") != "ok" or r.get("stdout") != expect:
+        return True, Failure("%s/jump-range/accepted-but-wrong" % PROPERTY,
+                             "%s: accepted, expected stdout %r, got outcome %s stdout %r stderr %r" %
+                             (what, expect, r.get("outcome"), (r.get("stdout") or "")[:200], (r.get("stderr") or "")[-300:]), info)
+    if verify:
+        d = ctx.worker("dbg").run(text, mode=W.MODE_DUMP, watchdog_s=120)
+        fnd = (d.get("verify") or {}).get("findings") or []
+        if fnd:
+            return True, Failure("%s/jump-range/verifier/%s" % (PROPERTY, fnd[0].split(" ", 1)[0]),
+                                 "%s: accepted, bytecode verifier: %s" % (what, "; ".join(fnd[:4])), info)
+    return True, None
+
+
+def jump_boundaries(ctx):
+    """For every construct: bisect the block length at which the compiler starts to refuse the jump, judging every
+    probe (clean rejection, or accepted + right output), then verify the bytecode of the last accepted sizes."""
     out = []
+    for name, _t, _e in long_texts(1):
+        lo, hi = 500, 70000
+        fail = None
+        ok_lo, f = long_probe(ctx, name, lo, True)
+        fail = fail or f
+        ok_hi, f = long_probe(ctx, name, hi, False)
+        fail = fail or f
+        probes = 2
+        if fail is None and ok_lo and not ok_hi:
+            while hi - lo > 1 and fail is None:
+                mid = (lo + hi) // 2
+                ok, fail = long_probe(ctx, name, mid, False)
+                probes += 1
+                if ok:
+                    lo = mid
+                else:
+                    hi = mid
+            for n in (lo - 1, lo):
+                if fail is None:
+                    _ok, fail = long_probe(ctx, name, n, True)
+                    probes += 1
+        elif fail is None and not ok_lo:
+            fail = Failure("%s/jump-range/small-block-rejected" % PROPERTY, "%s with n=%d is rejected" % (name, lo), {})
+        labels = ["jump-boundary", "accepted"] + (["boundary-found"] if (fail is None and ok_lo and not ok_hi) else [])
+        out.append(Outcome(key="long:%s:%d" % (name, lo), nontrivial=True, labels=labels, failure=fail,
+                           sample="jump boundary %s: last accepted n=%d, first rejected n=%d (%d probes)" % (name, lo, hi, probes),
+                           runs=probes))
+    return out
+
+
+def extra(tier, ctx):
+    out = jump_boundaries(ctx)
     root = repo_path()
     files = []
     for sub in ("laythe_vm/fixture/language", "laythe_vm/fixture/std_lib"):
